@@ -23,4 +23,21 @@ P['C01'] = dict(
     mismatch_meaning='bytes emitted or frame read back differ from the model proved equal to the MAVLink layout and to round-trip: a concrete frame on which the property fails',
 )
 
+P['C06'] = dict(
+    rule='signed v2 frames (dialect messages and raw ids, random and all-zero keys) x every single-bit alteration of every byte, a fresh wrong key, a key differing in one bit, the unsigned v2 and the v1 rendering of the same message, read by a keyed frame.Reader; histories of writes through streamwriter.Writer and frame.Writer.WriteMessage with an outgoing key (timestamp read from the wire, bracketed by two clock reads, handed to the model as the clock reading; bytes incl. signature must equal the model\'s). Non-trivial: model output not a bare rejection.',
+    assumptions=['SHA-256 is modelled in Gallina (Model/Sha256.v, compared with crypto/sha256 through every signature of the run)',
+                 'that an altered or foreign-key frame does not collide on the 48-bit SHA-256 prefix is a cryptographic assumption, not proved'],
+    mismatch_meaning='a frame was delivered / refused / signed differently from the model proved to implement the signing rule: concrete failing frame',
+)
+P['C07'] = dict(
+    rule='all sequences over the timestamp alphabet {0,1,5,999999,10^6,10^6+1,2*10^6-1,2*10^6,2*10^6+1,2^47,2^48-10^6-1,2^48-10^6,2^48-1} up to length 3 (quick) / 4 (thorough), random walks of length 4..15 with steps around the window edge; every frame correctly signed; result sequence of a keyed frame.Reader compared with the model; outgoing timestamps of keyed writers bracketed by clock reads and checked non-decreasing. Non-trivial: at least one frame accepted.',
+    assumptions=['time.Since is monotone (Go monotonic clock)'],
+    mismatch_meaning='the reader accepted or refused a correctly signed frame differently from the proved window function: concrete timestamp history',
+)
+P['C09'] = dict(
+    rule='all 54 small initialisation configurations; write histories of 300..700 messages (beyond the 256 wrap) mixing decoded and raw messages, rejected writes (raw id outside the dialect, ids above 255 on v1) at random positions, over random configurations (version, system id, component id incl. 0, key, link id) through streamwriter.Writer and frame.Writer.WriteMessage; every emitted byte string (header fields, sequence number, checksum, signature) must equal the model\'s. Non-trivial: model output not a bare rejection.',
+    assumptions=[],
+    mismatch_meaning='an originated frame differs from the model proved to carry the configured identity, gapless sequence numbers and correct checksum: concrete write history',
+)
+
 KNOWN_MATCH = {}
